@@ -45,23 +45,27 @@ CAL_STEPS64 = {
     'assign_chain': 40620, 'assign_diamonds': 47394, 'attr_diamonds': 66075,
     'builtin_call_chain': 51615, 'builtin_op_chain': 49957, 'call_chain': 4449,
     'call_tree': 47727, 'chain_A': 111570, 'chain_C': 61028, 'chain_D': 70801, 'chain_G': 109389,
-    'chain_H': 498514, 'chain_I': 101970, 'chain_L': 129917, 'chain_P': 150204,
-    'chain_T': 162489, 'chain_X': 136833, 'decorator_chain': 41570, 'diamonds': 417172,
-    'import_chain': 44103, 'inherit_chain': 74709, 'instance_tree': 112081,
-    'method_chain_builtin': 87808, 'nested_closures': 5014, 'nested_containers': 46100,
-    'ring_A': 28630, 'ring_C': 50742, 'ring_D': 51237, 'ring_G': 28409, 'ring_H': 315515,
-    'ring_I': 24903, 'ring_L': 119629, 'ring_P': 90249, 'ring_T': 92421, 'ring_X': 84677}
+    'chain_H': 498514, 'chain_I': 101970, 'chain_L': 129917, 'chain_P': 150204, 'chain_Q': 74208,
+    'chain_R': 43529, 'chain_S': 35120, 'chain_T': 162489, 'chain_U': 56785, 'chain_X': 136833,
+    'decorator_chain': 41570, 'diamonds': 417172, 'import_chain': 44103, 'inherit_chain': 74709,
+    'instance_tree': 112081, 'method_chain_builtin': 87808, 'nested_closures': 5014,
+    'nested_containers': 46100, 'ring_A': 28630, 'ring_C': 50742, 'ring_D': 51237,
+    'ring_G': 28409, 'ring_H': 315515, 'ring_I': 24903, 'ring_L': 119629, 'ring_P': 90249,
+    'ring_Q': 44115, 'ring_R': 26154, 'ring_S': 33492, 'ring_T': 92421, 'ring_U': 46137,
+    'ring_X': 84677}
 # maximum work of one query over all n observed per scaling family (hard-stop budget of (b))
 CAL_STEPS_FAM = {
     'assign_chain': 40620, 'assign_diamonds': 47394, 'attr_diamonds': 66075,
     'builtin_call_chain': 51617, 'builtin_op_chain': 49959, 'call_chain': 35716,
     'call_tree': 87924, 'chain_A': 111570, 'chain_C': 61028, 'chain_D': 70801, 'chain_G': 109389,
-    'chain_H': 498514, 'chain_I': 101970, 'chain_L': 129917, 'chain_P': 150204,
-    'chain_T': 162489, 'chain_X': 136833, 'decorator_chain': 41570, 'diamonds': 417172,
-    'import_chain': 44103, 'inherit_chain': 74709, 'instance_tree': 365542,
-    'method_chain_builtin': 87808, 'nested_closures': 36855, 'nested_containers': 46100,
-    'ring_A': 28630, 'ring_C': 50742, 'ring_D': 51237, 'ring_G': 28409, 'ring_H': 315515,
-    'ring_I': 24903, 'ring_L': 119629, 'ring_P': 90249, 'ring_T': 92421, 'ring_X': 84677}
+    'chain_H': 498514, 'chain_I': 101970, 'chain_L': 129917, 'chain_P': 150204, 'chain_Q': 74208,
+    'chain_R': 43529, 'chain_S': 35120, 'chain_T': 162489, 'chain_U': 56785, 'chain_X': 136833,
+    'decorator_chain': 41570, 'diamonds': 417172, 'import_chain': 44103, 'inherit_chain': 74709,
+    'instance_tree': 365542, 'method_chain_builtin': 87808, 'nested_closures': 36855,
+    'nested_containers': 46100, 'ring_A': 28630, 'ring_C': 50742, 'ring_D': 51237,
+    'ring_G': 28409, 'ring_H': 315515, 'ring_I': 24903, 'ring_L': 119629, 'ring_P': 90249,
+    'ring_Q': 44115, 'ring_R': 26154, 'ring_S': 33492, 'ring_T': 92421, 'ring_U': 46137,
+    'ring_X': 84677}
 FACTOR = 20
 # deepest python stack (frames above the query call, sampled at every 32nd counted entry) observed
 # per scaling family over all n; a stack that grows with n towards the interpreter limit (3000)
@@ -71,11 +75,13 @@ CAL_DEPTH_FAM = {
     'assign_chain': 1446, 'assign_diamonds': 1958, 'attr_diamonds': 2198,
     'builtin_call_chain': 696, 'builtin_op_chain': 693, 'call_chain': 392, 'call_tree': 390,
     'chain_A': 1603, 'chain_C': 390, 'chain_D': 560, 'chain_G': 1410, 'chain_H': 231,
-    'chain_I': 884, 'chain_L': 809, 'chain_P': 532, 'chain_T': 2979, 'chain_X': 499,
-    'decorator_chain': 274, 'diamonds': 339, 'import_chain': 948, 'inherit_chain': 270,
-    'instance_tree': 2198, 'method_chain_builtin': 987, 'nested_closures': 468,
-    'nested_containers': 269, 'ring_A': 1017, 'ring_C': 390, 'ring_D': 560, 'ring_G': 904,
-    'ring_H': 162, 'ring_I': 570, 'ring_L': 809, 'ring_P': 533, 'ring_T': 2064, 'ring_X': 497}
+    'chain_I': 884, 'chain_L': 809, 'chain_P': 532, 'chain_Q': 707, 'chain_R': 482,
+    'chain_S': 449, 'chain_T': 2979, 'chain_U': 796, 'chain_X': 499, 'decorator_chain': 274,
+    'diamonds': 339, 'import_chain': 948, 'inherit_chain': 270, 'instance_tree': 2198,
+    'method_chain_builtin': 987, 'nested_closures': 468, 'nested_containers': 269,
+    'ring_A': 1017, 'ring_C': 390, 'ring_D': 560, 'ring_G': 904, 'ring_H': 162, 'ring_I': 570,
+    'ring_L': 809, 'ring_P': 533, 'ring_Q': 707, 'ring_R': 482, 'ring_S': 450, 'ring_T': 2064,
+    'ring_U': 796, 'ring_X': 497}
 DEPTH_SAMPLE_MASK = 31
 DEPTH_FACTOR = 1.5      # depth(family, n) <= DEPTH_FACTOR * calibrated + DEPTH_C
 DEPTH_C = 100
